@@ -24,7 +24,15 @@ RULE = (
     "DataIndex.open on a scratch file by a generated HISTORY (sets in random order, overwritten values, ghost "
     "entries set and removed again by del / pop / delete_node, explicit entries on implicit directories removed "
     "again, reads, commits, close + reopen) whose final map is the case, the model runs on final_map(history); a "
-    "`roots` stream; a `lazy` stream: pairs of directory trees stored as tree objects, the index holding only the "
+    "`roots` stream; an `audit` stream (tools/COVERAGE_AUDIT.md) that runs in EVERY run: fixed pairs for odd names "
+    "(backslash, space, leading dot, Cyrillic/CJK/emoji, NFC next to NFD twin, `.dir`-suffixed file and directory "
+    "names, prefix siblings, 1 and 200 characters, case twins), shapes (empty directories, a directory of empty "
+    "directories, depth 5, intermediate-only directories, file vs directory-with-children at depth 0 and 2, root "
+    "entry on one side / both / a root FILE entry, single-entry and empty indexes, None on either side, duplicate "
+    "contents), entries (each optional Meta field absent / zero / value, eq=False fields, obj_name labels, loaded "
+    "flags, hash absent vs present, one value under two algorithm names), forced flag pairs, x back ends (memory, "
+    "SQLite commit+reopen, view(index, filter) on either side), + oracle-only: with_unknown / a non-default "
+    "callback leave the result unchanged, a lazily loaded directory whose object is MISSING; a `lazy` stream: pairs of directory trees stored as tree objects, the index holding only the "
     "unloaded directory entry at () / (data,) / (a,b) on one or both sides (other side: the explicit twin, or "
     "None, or the same tree), diffed with and without with_unchanged, renames, hash_only/meta_only, roots at "
     "or below the mount, and shallow (oracle only); a separate malformed stream (equal "
@@ -40,7 +48,10 @@ ASSUMPTIONS = [
     "mounted at the ROOT key () or below a key, always loadable - so DataIndexDirError/UNKNOWN cannot arise and "
     "`with_unknown` is left out of the proved core; the model and the oracle run on the explicitly built twin "
     "(what index.py:_load_from_object_storage creates); shallow runs of lazy pairs (the directory is never "
-    "loaded) are judged by the oracle only",
+    "loaded) are judged by the oracle only; a directory whose object is MISSING: the index knows only the "
+    "directory entry, so without with_unknown the result must be the flat reference over the known entries and "
+    "with it every key below it is UNKNOWN exactly once (oracle only, with_unknown is outside the model)",
+    "view(index, filter): the model runs on the visible twin (entries all of whose non-empty prefixes pass the filter)",
     "an index is its final key -> entry map (C08_history_final_map / _final_only); on-disk sides use entries whose "
     "observable form survives to_dict/from_dict (no mtime, no all-default Meta on an unhashed entry, no falsy "
     "HashInfo object) so that a cached and a re-read entry look the same; delete_node is used on leaves only",
